@@ -15,19 +15,83 @@ it is kept as it is (watched globals, up-to-timeout, pins live there).
 namespace DarkluaModel.Sem.HeapV
 variable {N : NumOps}
 
+/-- three partial injections (cells, tables, closures), each with a FRONTIER `(xL, xR)`: an extension may
+only add pairs at or beyond the frontier, so an object below it that is unrelated stays unrelated
+through arbitrary related code (one-sided objects; allocations that happen earlier on one side than on
+the other) -/
 structure Inj where
   c : Nat → Nat → Prop
   t : Nat → Nat → Prop
   f : Nat → Nat → Prop
+  cL : Nat := 0
+  cR : Nat := 0
+  tL : Nat := 0
+  tR : Nat := 0
+  fL : Nat := 0
+  fR : Nat := 0
 
 structure Inj.le (β β' : Inj) : Prop where
   c : ∀ a b, β.c a b → β'.c a b
   t : ∀ a b, β.t a b → β'.t a b
   f : ∀ a b, β.f a b → β'.f a b
+  front : β.cL ≤ β'.cL ∧ β.cR ≤ β'.cR ∧ β.tL ≤ β'.tL ∧ β.tR ≤ β'.tR ∧ β.fL ≤ β'.fL ∧ β.fR ≤ β'.fR
+  freshC : ∀ a b, β'.c a b → β.c a b ∨ (β.cL ≤ a ∧ β.cR ≤ b)
+  freshT : ∀ a b, β'.t a b → β.t a b ∨ (β.tL ≤ a ∧ β.tR ≤ b)
+  freshF : ∀ a b, β'.f a b → β.f a b ∨ (β.fL ≤ a ∧ β.fR ≤ b)
 
-theorem Inj.le_refl (β : Inj) : β.le β := ⟨fun _ _ h => h, fun _ _ h => h, fun _ _ h => h⟩
+theorem Inj.le_refl (β : Inj) : β.le β :=
+  ⟨fun _ _ h => h, fun _ _ h => h, fun _ _ h => h,
+    ⟨Nat.le_refl _, Nat.le_refl _, Nat.le_refl _, Nat.le_refl _, Nat.le_refl _, Nat.le_refl _⟩,
+    fun _ _ h => .inl h, fun _ _ h => .inl h, fun _ _ h => .inl h⟩
 theorem Inj.le_trans {a b c : Inj} (h1 : a.le b) (h2 : b.le c) : a.le c :=
-  ⟨fun _ _ h => h2.c _ _ (h1.c _ _ h), fun _ _ h => h2.t _ _ (h1.t _ _ h), fun _ _ h => h2.f _ _ (h1.f _ _ h)⟩
+  ⟨fun _ _ h => h2.c _ _ (h1.c _ _ h), fun _ _ h => h2.t _ _ (h1.t _ _ h), fun _ _ h => h2.f _ _ (h1.f _ _ h),
+    ⟨Nat.le_trans h1.front.1 h2.front.1, Nat.le_trans h1.front.2.1 h2.front.2.1,
+      Nat.le_trans h1.front.2.2.1 h2.front.2.2.1, Nat.le_trans h1.front.2.2.2.1 h2.front.2.2.2.1,
+      Nat.le_trans h1.front.2.2.2.2.1 h2.front.2.2.2.2.1, Nat.le_trans h1.front.2.2.2.2.2 h2.front.2.2.2.2.2⟩,
+    fun x y h => by
+      rcases h2.freshC x y h with h | h
+      · exact h1.freshC x y h
+      · exact .inr ⟨Nat.le_trans h1.front.1 h.1, Nat.le_trans h1.front.2.1 h.2⟩,
+    fun x y h => by
+      rcases h2.freshT x y h with h | h
+      · exact h1.freshT x y h
+      · exact .inr ⟨Nat.le_trans h1.front.2.2.1 h.1, Nat.le_trans h1.front.2.2.2.1 h.2⟩,
+    fun x y h => by
+      rcases h2.freshF x y h with h | h
+      · exact h1.freshF x y h
+      · exact .inr ⟨Nat.le_trans h1.front.2.2.2.2.1 h.1, Nat.le_trans h1.front.2.2.2.2.2 h.2⟩⟩
+
+/-- a closure on the left that is below the frontier and unrelated: no extension ever relates it -/
+theorem Inj.le.protectedFL {β β' : Inj} (h : β.le β') {a : Nat} (hlt : a < β.fL) (hu : ∀ b, ¬ β.f a b) :
+    ∀ b, ¬ β'.f a b := fun b hb => by
+  rcases h.freshF a b hb with h1 | h1
+  · exact hu b h1
+  · omega
+theorem Inj.le.protectedFR {β β' : Inj} (h : β.le β') {b : Nat} (hlt : b < β.fR) (hu : ∀ a, ¬ β.f a b) :
+    ∀ a, ¬ β'.f a b := fun a ha => by
+  rcases h.freshF a b ha with h1 | h1
+  · exact hu a h1
+  · omega
+theorem Inj.le.protectedTL {β β' : Inj} (h : β.le β') {a : Nat} (hlt : a < β.tL) (hu : ∀ b, ¬ β.t a b) :
+    ∀ b, ¬ β'.t a b := fun b hb => by
+  rcases h.freshT a b hb with h1 | h1
+  · exact hu b h1
+  · omega
+theorem Inj.le.protectedTR {β β' : Inj} (h : β.le β') {b : Nat} (hlt : b < β.tR) (hu : ∀ a, ¬ β.t a b) :
+    ∀ a, ¬ β'.t a b := fun a ha => by
+  rcases h.freshT a b ha with h1 | h1
+  · exact hu a h1
+  · omega
+theorem Inj.le.protectedCL {β β' : Inj} (h : β.le β') {a : Nat} (hlt : a < β.cL) (hu : ∀ b, ¬ β.c a b) :
+    ∀ b, ¬ β'.c a b := fun b hb => by
+  rcases h.freshC a b hb with h1 | h1
+  · exact hu b h1
+  · omega
+theorem Inj.le.protectedCR {β β' : Inj} (h : β.le β') {b : Nat} (hlt : b < β.cR) (hu : ∀ a, ¬ β.c a b) :
+    ∀ a, ¬ β'.c a b := fun a ha => by
+  rcases h.freshC a b ha with h1 | h1
+  · exact hu a h1
+  · omega
 
 def Injective (r : Nat → Nat → Prop) : Prop := ∀ {a b a' b'}, r a b → r a' b' → (a = a' ↔ b = b')
 
@@ -174,6 +238,22 @@ structure CRel (Q : QRel) (β : Inj) (c c' : Closure N) : Prop where
 theorem CRel.mono {Q : QRel} {β β' : Inj} {c c' : Closure N} (h : CRel Q β c c') (hβ : β.le β') : CRel Q β' c c' :=
   ⟨h.varargs.mono hβ, let ⟨D, hq, he⟩ := h.body; ⟨D, hq, he.mono hβ⟩⟩
 
+/-- the frontiers of `β` are at most the current allocation points -/
+structure Front (β : Inj) (σ σ' : State N) : Prop where
+  cL : β.cL ≤ σ.cells.length
+  cR : β.cR ≤ σ'.cells.length
+  tL : β.tL ≤ σ.tables.length
+  tR : β.tR ≤ σ'.tables.length
+  fL : β.fL ≤ σ.closures.length
+  fR : β.fR ≤ σ'.closures.length
+
+theorem Front.of_le {β : Inj} {σ σ' s s' : State N} (h : Front β σ σ') (h1 : σ.cells.length ≤ s.cells.length)
+    (h2 : σ'.cells.length ≤ s'.cells.length) (h3 : σ.tables.length ≤ s.tables.length)
+    (h4 : σ'.tables.length ≤ s'.tables.length) (h5 : σ.closures.length ≤ s.closures.length)
+    (h6 : σ'.closures.length ≤ s'.closures.length) : Front β s s' :=
+  ⟨Nat.le_trans h.cL h1, Nat.le_trans h.cR h2, Nat.le_trans h.tL h3, Nat.le_trans h.tR h4,
+    Nat.le_trans h.fL h5, Nat.le_trans h.fR h6⟩
+
 def GRel (β : Inj) (p q : String × Val N) : Prop := p.1 = q.1 ∧ VRel β p.2 q.2
 
 structure SRel (Q : QRel) (β : Inj) (σ σ' : State N) : Prop where
@@ -187,6 +267,8 @@ structure SRel (Q : QRel) (β : Inj) (σ σ' : State N) : Prop where
   clo : ∀ {a b}, β.f a b → ∃ c c', σ.closures[a]? = some c ∧ σ'.closures[b]? = some c' ∧ CRel Q β c c'
   /-- the `string` library table (strings index into it) is related to itself -/
   strlib : β.t stringLibId stringLibId
+  /-- the frontiers are at most the current allocation points -/
+  front : Front β σ σ'
 
 abbrev ARel (α : Type) := Inj → α → α → Prop
 def AEq {α : Type} : ARel α := fun _ a b => a = b
